@@ -303,6 +303,48 @@ macro_rules! range_row {
                 if n == 0 {
                     vcheck!(words.is_empty(), "C02/empty_message_produced_words", "empty message sealed to {}", hexwords(&words));
                 }
+                // The batch forms (provided methods of `Encode` / `Decode`) are the per-symbol loop: a second encoder is fed
+                // run by run (runs of equal precision), a second decoder reads the message back run by run, the iterators
+                // being consumed through collect / next + size_hint / nth. (No new draws.)
+                if !adversarial {
+                    let mut eb = Enc::new();
+                    let mut db = RangeDecoder::<$W, $S, _>::from_compressed(words.clone()).unwrap_infallible();
+                    let (mut i, mut run_no) = (0usize, 0usize);
+                    while i < n {
+                        let sel = msg[i].1.sel;
+                        let mut j = i;
+                        while j < n && msg[j].1.sel == sel && j - i < 7 {
+                            j += 1;
+                        }
+                        let run = &msg[i..j];
+                        let iid = run.iter().all(|(_, t)| *t == run[0].1);
+                        let eform = (run_no + kfrac) % 3;
+                        let r: Result<(), String> = with_prec!(sel, $plist, |M| match eform {
+                            0 => eb.encode_symbols(run.iter().map(|(s, t)| (*s, M::new(t)))).map_err(|e| format!("{:?}", e)),
+                            1 => eb.try_encode_symbols(run.iter().map(|(s, t)| Ok::<_, Infallible>((*s, M::new(t))))).map_err(|e| format!("{:?}", e)),
+                            _ if iid => eb.encode_iid_symbols(run.iter().map(|(s, _)| *s), M::new(&run[0].1)).map_err(|e| format!("{:?}", e)),
+                            _ => eb.encode_symbols(run.iter().map(|(s, t)| (*s, M::new(t)))).map_err(|e| format!("{:?}", e)),
+                        });
+                        vcheck!(r.is_ok(), "C02/batch_encode_failed", "batch form {} on symbols {}..{} -> {:?}", eform, i, j, r);
+                        let expect: Vec<usize> = run.iter().map(|(s, _)| *s).collect();
+                        let dform = (run_no + via as usize) % 5;
+                        let got: Result<Vec<usize>, String> = with_prec!(sel, $plist, |M| match dform {
+                            0 | 1 | 2 => crate::c01::consume_batch(dform, &expect, db.decode_symbols(run.iter().map(|(_, t)| M::new(t)))),
+                            3 if iid => crate::c01::consume_batch(run_no % 3, &expect, db.decode_iid_symbols(run.len(), M::new(&run[0].1))),
+                            _ => db.try_decode_symbols(run.iter().map(|(_, t)| Ok::<_, Infallible>(M::new(t)))).collect::<Result<Vec<_>, _>>().map_err(|e| format!("{:?}", e)),
+                        });
+                        vcheck!(got.as_ref() == Ok(&expect), "C02/batch_decode_mismatch", "batch decode form {} on symbols {}..{}: {:?}, encoded {:?}", dform, i, j, got, expect);
+                        i = j;
+                        run_no += 1;
+                    }
+                    let wb: Vec<$W> = match eb.into_compressed() {
+                        Ok(v) => v,
+                        Err(x) => match x {},
+                    };
+                    vcheck!(wb == words, "C02/batch_encode_differs_from_loop", "batch forms sealed to {}, the per-symbol loop to {}", hexwords(&wb), hexwords(&words));
+                    vcheck!(db.maybe_exhausted(), "C02/not_maybe_exhausted_at_end", "after batch-decoding all {} symbols from {}", n, hexwords(&words));
+                    ctx.label_if(n >= 2, "batch_forms");
+                }
                 match via {
                     0 => {
                         ctx.label("dec:from_compressed_vec");
